@@ -41,6 +41,33 @@ pub fn gen_c07(out: &mut dyn Write, thorough: bool, seed: u64) {
         }
         models.push(m);
     }
+    // strings of 4 KiB and more (comment, word, n-gram, tag, token): any staging buffer is crossed by ONE string
+    for (k, &len) in [255usize, 256, 4095, 4096, 4097, 6000, 9000].iter().enumerate() {
+        let (mut m, alpha) = gen_model(&mut r, &opts);
+        gen_tag_models(&mut r, &mut m, &alpha, 2);
+        let long: String = (0..len).map(|i| ['x', 'あ', '"', ','][i % 4]).collect::<String>().chars().take(len).collect();
+        match k % 3 {
+            0 => m.dict.push(("ab".into(), vec![1, 2, 3], long.clone())),
+            1 => {
+                let n = long.chars().count();
+                m.dict.push((long.clone(), vec![1; n + 1], "c".into()));
+            }
+            _ => {
+                if let Some(tm) = m.tag_models.first_mut() {
+                    tm.tags.push(vec![long.clone()]);
+                } else {
+                    m.dict.push(("ab".into(), vec![1, 2, 3], long.clone()));
+                }
+            }
+        }
+        let mt = m.to_text();
+        writeln!(out, "B {mt} c07").unwrap();
+        writeln!(out, "RS {mt} full - - c07").unwrap();
+        let lenb = m.to_bytes().len();
+        writeln!(out, "WF {mt} {} c07", lenb + 10).unwrap();
+        writeln!(out, "WF {mt} {} c07", lenb / 2).unwrap();
+        writeln!(out, "RF {mt} {} c07", lenb - 3).unwrap();
+    }
     for m in &models {
         let mt = m.to_text();
         let len = m.to_bytes().len();
